@@ -253,7 +253,7 @@ impl Voronoi {
         let mut face_connections_offset = 0;
         for (i, cell) in self.voronoi_cells.iter_mut().enumerate() {
             let face_count = cell_face_connections[i].len();
-            cell.finalize(face_connections_offset, face_count);
+            cell.finalize(i, face_connections_offset, face_count);
             face_connections_offset += face_count;
         }
 
